@@ -135,6 +135,18 @@ func (r *rwRT) ruleFilePasses() {
 			}
 			last = i
 		}
+		// astutil.Apply walks the children of the node it was handed, not of its replacement: a pass that replaces
+		// nodes from the pre-order callback leaves the nested occurrences (Iter[Iter[T]], a consumer loop in a
+		// consumer loop) in the detached original. Every pass runs from the post-order callback.
+		topDown := ""
+		for _, e := range o.St.Events {
+			if e.Kind == "call" && e.Fn != nil && e.Fn.Name() == "Apply" && strings.Contains(fnPkgPath(e.Fn), "astutil") && len(e.Args) == 3 {
+				if n, known := nilness(e.Args[1]); !known || !n {
+					topDown = "a pass is handed to astutil.Apply as the pre-order callback: replacements made top-down lose the nested occurrences"
+				}
+			}
+		}
+		c.check(topDown == "", "RW.FILEPASSES", "order of passes: every pass runs bottom-up", pos, "each traversal passes its callback in the post-order position", topDown)
 		c.check(err == nil, "RW.FILEPASSES", "order of passes in rewriteFile", pos,
 			"collect generators -> YieldFrom -> range-over-iterator -> generator bodies -> iterator type -> print: each lowering sees the form its predecessor produces",
 			fmt.Sprint(err))
